@@ -77,6 +77,10 @@ CHECKS = {
          "other",
          "The cycle enumeration itself is the runtime library's. Decided: every dependency-carrying position of the compiled output (all argument positions of services, decorator arguments and tags, parameter references) becomes an edge of the right kind with the right endpoints, per element and without leakage between elements; the validator returns exactly the library's verdict on that graph on every path and cannot be switched off; parameter references reach the graph because all tokens' references are recorded and copied.",
          "DESIGN.md §4 C07"),
+ "C14": ("structural spec of decorateImport on the typed AST (first-segment lookup, single substitution, result forms), interprocedural sanitised-before-alias provenance on SSA (through parameters, fields and interface calls), SSA rules of the alias table (lookup-before-create, counter), regular-language decision on the sanitiser class, capture-group consumption and non-empty guards of the reference compilers, engine M on the table",
+         "other",
+         "Decides for all alias tables and references: an alias replaces exactly the whole first segment, once, independent of map order; every reference is normalised before it reaches the table and the current package never reaches it; one decorated path maps to one name and different paths to different names (counter), which is always an identifier; all groups of a reference reach the compiled expression. Which package a symbol finally comes from needs the user's module and is not decided. D12 (alias named like a template import) is a recorded finding.",
+         "DESIGN.md §4 C14"),
 }
 NOT_YET = "check not built yet in this session (design in DESIGN.md §4); will be claimed once its rules run on /repo"
 
